@@ -320,7 +320,7 @@ package ugo
 //@ loop 0 invariant flags == 0 ==> forall k int :: 0 <= k && k < specFixedParams(cfunc) ==> vm.stack[basePointer+k] == old(verifrt.Snap(vm.stack[:]))[basePointer+k]
 //@ loop 0 invariant flags == 0 && cfunc.Variadic && numParams >= 1 ==> specVarArgsIn(vm.stack[basePointer+numParams-1], old(verifrt.Snap(vm.stack[:]))[basePointer+numParams-1:old(vm.sp)], vm.stack[:])
 //@ loop 0 invariant forall k int :: numParams <= k && k < i ==> vm.stack[basePointer+k] == Undefined
-//@ loop 1 invariant i <= vm.sp && vm.sp == old(vm.sp) && vm.curFrame == old(vm.curFrame) && curBp+numLocals <= newSp && newSp == old(vm.sp)-numArgs-1 && newSp-1 <= i && vm.frameIndex == old(vm.frameIndex)
+//@ loop 1 invariant i <= vm.sp && vm.sp == old(vm.sp) && vm.curFrame == old(vm.curFrame) && curBp+numLocals <= newSp && newSp-1 <= i && vm.frameIndex == old(vm.frameIndex)
 //@ loop 1 invariant forall k int :: i < k && k <= old(vm.sp) ==> vm.stack[k] == nil
 //@ loop 1 invariant flags == 0 ==> forall k int :: 0 <= k && k < specFixedParams(cfunc) ==> vm.stack[curBp+k] == old(verifrt.Snap(vm.stack[:]))[basePointer+k]
 //@ loop 1 invariant[varargs] flags == 0 && cfunc.Variadic && numParams >= 1 ==> specVarArgsIn(vm.stack[curBp+numParams-1], old(verifrt.Snap(vm.stack[:]))[basePointer+numParams-1:old(vm.sp)], vm.stack[:])
